@@ -20,4 +20,17 @@ def add_to(run):
                "event.EventMap.index::returns-the-registered-index", "event.EventMap.index::KeyError-iff-unknown-source"):
         run.require(cl)
     run.assumptions += BASE_ASSUMPTIONS_L1 + ["dict.values() yields the stored values in insertion order (CPython, assumed)"]
+    # the statements issued by the real Monitor.elaborate(), for any number of sources (recording hardware stubs)
+    try:
+        from contracts import monitor_l1
+        fv = monitor_l1.verify_monitor_elaborate()
+        run.functions["amaranth_soc.event.Monitor.elaborate [statements issued, any number of sources]"] = \
+            f"proved ({fv.paths} paths, {len(fv.obs)} obligations): per source and trigger mode exactly the edge register, trigger, set-then-clear statements on bit `index`"
+        run.require("event.Monitor.elaborate::trigger-by-mode", "event.Monitor.elaborate::pending-set-on-trigger", "event.Monitor.elaborate::interrupt-line")
+        run.assumptions.append("Monitor.elaborate contract: Amaranth objects are recording stubs (which statements, under which If/Elif, on which bit); "
+                               "their hardware meaning is Amaranth's semantics (the per-configuration hdlvc clauses check it)")
+        obs += fv.obs
+    except Unsupported as e:
+        run.functions["amaranth_soc.event.Monitor.elaborate [statements issued, any number of sources]"] = f"unsupported: {e} (the per-configuration clauses decide)"
+        run.bounded_notes.append(f"Monitor.elaborate: outside the pyvc subset on this tree ({e}); per-configuration clauses decide")
     discharge_all(run, obs, timeout_ms=10000)
